@@ -653,8 +653,24 @@ def _merge_acctinfo(args: ArgsType, markup: BytesIO) -> None:
         for clsnm, infos in itertools.groupby(acctinfos, key=sortKey)
     ]
 
+    discovered: MutableMapping = dict(ChainMap(*parsed_args))
+
+    # The accounts the server lists as active are the whole truth: account #s
+    # configured elsewhere (e.g. in config files) for account types for which the
+    # server lists no active account must not be requested.
+    for accttype in (
+        "checking",
+        "savings",
+        "moneymrkt",
+        "creditline",
+        "creditcard",
+        "investment",
+    ):
+        if accttype not in discovered and args.get(accttype, None):
+            discovered[accttype] = []
+
     # Insert extracted ACCTINFO after CLI commands, but before config files
-    args.maps.insert(1, ChainMap(*parsed_args))  # type: ignore
+    args.maps.insert(1, discovered)  # type: ignore
 
 
 def request_stmt(args: ArgsType) -> None:
